@@ -202,6 +202,41 @@ def check_multi(ctx, rng):
     return None
 
 
+def check_headless(ctx, rng, fixed=None):
+    """An assertion without head is the assertion `out = ...`: a LATER assertion may refer to it by that name, exactly as when the
+    head is written."""
+    if fixed:
+        P, Q, n, data = fixed["P"], fixed["Q"], fixed["n"], fixed["data"]
+    else:
+        g = F.Gen(rng, VARS[:2], F.PAST_ONLY - {"fn", "iffxor"}, max_bound=2)
+        P = "(" + F.to_text(g.formula(rng.choice([0, 1]))) + ")"
+        Q = rng.choice(["historically(out)", "once[0,2](out)", "(out) and (a >= 0.0)", "not(out)", "(out) since (a <= 1.0)"])
+        n = rng.randint(2, 8)
+        data = F.gen_trace(rng, VARS[:2], n)
+    vs = VARS[:2]
+
+    def run(text):
+        def go():
+            s = impl.make_spec("offd", text, vs, extra_decl=["res"])
+            s.parse()
+            ds = {"time": list(range(n))}
+            ds.update({v: list(data[v]) for v in vs})
+            return [p_[1] for p_ in s.evaluate(ds)]
+        return impl.guarded(go)
+    with_head, without = "out = %s;\nres = %s" % (P, Q), "%s;\nres = %s" % (P, Q)
+    a, b = run(with_head), run(without)
+    ctx.evaluations += 1
+    ctx.count("multi:headless-first-assertion")
+    ctx.nontrivial.add((with_head, str(data)))
+    rep = {"kind": "headless", "P": P, "Q": Q, "n": n, "data": data, "with_head": with_head, "without": without, "impl_with": a, "impl_without": b}
+    if a[0] != "ok":
+        return None
+    if b[0] != "ok" or not same_vals(a[1], b[1]):
+        return Violation("the head `out =` omitted from the first assertion changes the result: %r gives %r, %r gives %r"
+                         % (with_head, a[1:], without, b[1:]), rep, stream="spell/multi")
+    return None
+
+
 COLLIDE = [("alw", "G"), ("ev", "F"), ("prev", "Y"), ("next", "X"), ("once", "O"), ("hist", "H"), ("sprev", "sY"), ("snext", "sX")]
 
 
@@ -269,7 +304,7 @@ def explore(ctx, rng, count):
             ctx.count("gen:name-collision")
             v, d = check_case(ctx, f, data, n, rng)
         elif i % 5 == 3:
-            v, d = check_multi(ctx, rng), None
+            v, d = (check_headless(ctx, rng) if rng.random() < 0.3 else check_multi(ctx, rng)), None
         elif i % 5 == 4:
             ctx.evaluations += 1
             ctx.count("unless-sugar")
@@ -316,6 +351,9 @@ def replay(ctx, obj):
         b, o = run(obj["base"]), run(obj.get("text", obj["base"]), obj.get("subs", ()))
         ok = b[0] == "ok" and o[0] == "ok" and b[1][0] == o[1][0] and same_vals(b[1][1], o[1][1])
         return ok, ("variant agrees" if ok else "variant differs: %r vs %r" % (o, b))
+    if obj.get("kind") == "headless":
+        v = check_headless(Ctx(ctx.id, ctx.tier, ctx.seed), None, fixed=obj)
+        return (v is None), (v.what if v else "the assertion without head behaves like `out = ...`")
     if obj.get("kind") == "unless":
         kw = dict(unit="ms", sampling=(1, "s", 0.1)) if obj.get("units") else {}
         l, r = stl_eval(obj["lhs"], vs, data, obj["n"], **kw), stl_eval(obj["rhs"], vs, data, obj["n"], **kw)
